@@ -216,4 +216,49 @@ theorem nodup_filter_sublist {l t : List Atom} (hn : l.Nodup) (hs : t.Sublist l)
       simp [this]
     rw [e, ih hn']
 
+/-! ## `minimum_n_keys` = fewest signing keys over all satisfying assignments -/
+
+theorem mem_subsets_of_sublist : ∀ (l s : List Atom), s.Sublist l → s ∈ subsets l := by
+  intro l
+  induction l with
+  | nil => intro s h; cases h; simp [subsets]
+  | cons a l ih =>
+    intro s h
+    rw [subsets, List.mem_append]
+    cases h with
+    | cons _ h' => exact Or.inl (ih s h')
+    | cons_cons _ h' =>
+      rename_i s'
+      exact Or.inr (List.mem_map.mpr ⟨s', ih s' h', rfl⟩)
+
+theorem sublist_of_mem_subsets : ∀ (l s : List Atom), s ∈ subsets l → s.Sublist l := by
+  intro l
+  induction l with
+  | nil => intro s h; simp [subsets] at h; subst h; exact List.Sublist.refl _
+  | cons a l ih =>
+    intro s h
+    rw [subsets, List.mem_append] at h
+    rcases h with h | h
+    · exact (ih s h).cons a
+    · obtain ⟨s', hs', rfl⟩ := List.mem_map.mp h
+      exact (ih s' hs').cons_cons a
+
+theorem holdsA_valOf_sel (p : Policy) (s : List Atom) (hs : s ∈ sels p) :
+    holdsA (valOf s) p = true := by
+  rw [holdsA_eq_good, good, List.any_eq_true]
+  exact ⟨s, hs, by simp [valOf]⟩
+
+/-- with pairwise distinct keys, the key leaves made true by `valOf ts` are the keys of `ts` -/
+theorem trueKeys_valOf (p : Policy) (ts : List Atom) (hts : ts.Sublist (atomsOf p))
+    (hd : ((atomsOf p).filter Atom.isKey).Nodup) : trueKeys (valOf ts) p = nSigs ts := by
+  have hsub := hts.filter Atom.isKey
+  have := nodup_filter_sublist hd hsub
+  have e : (atomsOf p).filter (fun a => a.isKey && valOf ts a)
+      = ((atomsOf p).filter Atom.isKey).filter (fun a => (ts.filter Atom.isKey).contains a) := by
+    rw [List.filter_filter]
+    apply List.filter_congr
+    intro a _
+    cases hk : a.isKey <;> simp [hk, valOf, List.contains_eq_mem]
+  rw [trueKeys, e, this, nSigs, List.countP_eq_length_filter]
+
 end MsVerif.Pol
